@@ -695,12 +695,28 @@ def _f26(repo):
 def generate(repo):
     lines = ["(* GENERATED by harness/srcfacts.py from %s/twosigma/memento on every run. Do not edit. *)" % repo,
              "From Coq Require Import List String ZArith.", "Import ListNotations.", ""]
+    vals = []
     for name, ty, fn in FACTS:
         try:
             val = fn(repo)
         except Exception as e:  # fail closed
             val = "None" if ty.startswith("option") else "[]"
-        lines.append("Definition %s : %s := %s." % (name, ty, val))
+        vals.append([name, ty, val, ""])
+    # a shape the translator does not recognise (None): establish the fact by running the few lines it is about
+    # on a crafted input (harness/probes.py); if that cannot tell either, the fact stays None (fail closed)
+    unrecognised = [v for v in vals if v[2] == "None"]
+    if unrecognised:
+        try:
+            from . import probes
+        except ImportError:
+            import probes
+        pr = probes.run_probes(repo)
+        for v in unrecognised:
+            if pr.get(v[0]) in (True, False):
+                v[2] = "Some true" if pr[v[0]] else "Some false"
+                v[3] = "  (* shape not recognised in the source; established by the behavioural probe *)"
+    for name, ty, val, note in vals:
+        lines.append("Definition %s : %s := %s.%s" % (name, ty, val, note))
     lines.append("")
     return "\n".join(lines)
 
